@@ -6,7 +6,8 @@ CONSTANT Cuts = {0, 7, 19}
 CONSTANT SafeDepth = 100
 CONSTANT SafeChain = 100
 CONSTANT HeavyTransports = {"execute", "json", "ws"}
-CONSTANT Dev = {"DevUploadMarker", "DevUndefinedType", "DevParserDepth", "DevFragmentChain", "DevNestedMultipart"}
+CONSTANT Wide = FALSE
+CONSTANT Dev = {"DevParserDepth", "DevFragmentChain"}
 SPECIFICATION Spec
 INVARIANT TypeOK
 INVARIANT AnswerAllowed
